@@ -75,7 +75,7 @@ pub enum ProveOutcome {
 pub fn build_statement<B: Fld>(st: &Statement) -> (Vec<Vec<u128>>, Vec<Vec<u128>>, SpecPub<B>) {
     let cols = gen_main::<B>(&st.spec, st.seed);
     let vals = assertion_values(&st.spec, &cols);
-    let pubs = SpecPub { spec: st.spec.clone(), values: vals.iter().map(|v| v.iter().map(|x| B::mk(*x)).collect()).collect() };
+    let pubs = SpecPub { spec: st.spec.clone(), values: vals.iter().map(|v| v.iter().map(|x| B::mk(*x)).collect()).collect(), extra: vec![] };
     (cols, vals, pubs)
 }
 
